@@ -1,11 +1,67 @@
-# C11, aggregator and client layers: the services that PRODUCE the proofs and the client's MessageBuilder
+# C11, aggregator and client layers: the services that PRODUCE the proofs (prover.rs, prover_legacy.rs over the
+# real sqlite store, importer and pooled Merkle-map cache) and the client's MessageBuilder / match_message
 EXTEND = {
-    "harness": [("harness-prover", "c11b")],
-    "theorems": [],
-    "lean_modules": ["MithrilModel.Prover"],
-    "anchors": ["mithril-aggregator/src/services/prover.rs", "mithril-aggregator/src/services/prover_legacy.rs"],
-    "rule": "",
-    "level_text": "",
-    "trusted_base": [],
-    "goals_not_proved": [],
+    "harness": [("harness-prover", "c11b"), ("harness-prover", "c11c")],
+    "lean_modules": ["MithrilModel.Prover", "MithrilModel.ProverProofs", "MithrilModel.ClientMsg"],
+    "theorems": [
+        "C11.C11_prover_certified_exact", "C11.C11_prover_non_certified_exact", "C11.C11_prover_items_under_signed_map",
+        "C11.C11_prover_committed", "C11.C11_legacy_prover_exact", "C11.C11_legacy_unaligned_counterexample",
+        "C11.C11_prover_not_refused", "C11.C11_legacy_prover_not_refused", "C11.C11_prover_inside_range_counterexample",
+        "C11.C11_prover_stale_cache_refused", "C11.C11_range_root_faithful",
+        "C11.C11_client_match_binds", "C11.C11_client_match_values", "C11.C11_client_match_complete",
+        "Prover.prove2_committed", "Prover.prove2_not_refused", "Prover.proveL_exact_aligned", "Prover.proveL_not_refused",
+        "Prover.replaceAll_ok", "Prover.mem_found", "ClientMsg.match_binds", "ClientMsg.get_rebuild_set", "ClientMsg.get_rebuild_other",
+        "ClientMsg.text_inj",
+    ],
+    "anchors": [
+        "mithril-aggregator/src/services/prover.rs", "mithril-aggregator/src/services/prover_legacy.rs",
+        "mithril-aggregator/src/database/repository/cardano_transaction_repository.rs",
+        "mithril-aggregator/src/message_adapters/to_cardano_transactions_proof_message.rs",
+        "internal/mithril-persistence/src/database/repository/cardano_transaction_repository.rs",
+        "internal/mithril-resource-pool/src/resource_pool.rs",
+        "internal/mithril-merkle-tree/src/merkle_map.rs",
+        "mithril-common/src/signable_builder/cardano_transactions.rs", "mithril-common/src/signable_builder/cardano_blocks_transactions.rs",
+        "mithril-common/src/messages/message_parts/mk_set_proof.rs",
+        "mithril-client/src/cardano_stake_distribution_client.rs", "mithril-common/src/messages/certificate.rs",
+    ],
+    "rule": "c11b: history = a chain of 8-50 (90) blocks with 0-3 transactions and occasional number gaps, grown 1-3 (5) times; per round "
+            "optional import ahead, signable of a CardanoBlocksTransactions beacon (any block number, biased to range starts / ends / "
+            "multiples of 5) and of a CardanoTransactions beacon (15k-1) through the real signable builders and importer, compute_cache "
+            "of both provers (sometimes skipped: stale cache; pool size 1-3), 3-6 (9) requests for transaction / block / legacy proofs "
+            "(hashes stored below the beacon, in the beacon's own range, above the beacon, absent, of the other kind, duplicated, none), "
+            "mostly at the cached beacon, sometimes an older or newer one, interleaved with chain growth and imports; one case per "
+            "history plus one per produced proof. c11c: world = chain + legacy and v2 trees + a stake distribution of 1-40 pools; cases = "
+            "15 legacy, 2x14 v2, 7-8 stake-distribution deliveries and 3 signed-value alterations, each a certificate (own message, "
+            "signed digest) and a response; all non-trivial; distinct request lines.",
+    "level_text": "Aggregator layer: `Prover.lean` models the transaction store, both block-range-root tables as the importer fills them, the "
+                  "map both signable builders sign (with the partial last range of CardanoBlocksTransactions), the pooled copy "
+                  "(`compute_cache`) and the two provers including their refusals; proved for every store, cache, beacon and request: an "
+                  "answer reports exactly requested ∩ stored-at-or-below-the-beacon (items with their stored fields), the non-certified "
+                  "list is exactly the rest, every reported item is a leaf of the range sub-tree of the pooled map — which after "
+                  "sign-then-cache IS the signed map, in every later state — so a stale or foreign cache is refused, never served wrong; "
+                  "under the C13 store invariants and outside the known beacon-inside-stored-range class no request of the certification "
+                  "flow is refused. The real MithrilProverService and LegacyMithrilProverService run over the real sqlite repository, "
+                  "importer, signable builders and ResourcePool cache on generated histories; K compares per request outcome class, "
+                  "certified items, non-certified list and root identity with the model, and replays every produced proof through the "
+                  "Lean verifier (verdict + root bytes); S (real vs real, harness chain as oracle): proof accepted by the real client "
+                  "verifier, reported items stored at or below the beacon with these fields, none omitted, root = the root the real "
+                  "signable builder signed for the cache's beacon, no refusal in the certification flow. Client layer: "
+                  "`ClientMsg.lean` models the four MessageBuilder paths (clone the certificate's message, overwrite root / block number / "
+                  "offset / epoch) and match_message; proved: match implies the rebuilt message is the signed one part by part (or a "
+                  "digest collision), hence the response's values are the signed ones, and conversely; K compares digest (SHA-256 in "
+                  "Lean) and verdict, S demands match iff the values are the signed ones, each altered in turn.",
+    "trusted_base": ["harness bins c11b, c11c (harness-prover); sqlite through the real CardanoTransactionRepository; tokio runtime; "
+                     "the scripted BlockScanner of c11b (blocks after the start point up to the target, in batches); "
+                     "content abstraction of Prover.lean: a Merkle tree is named by its ordered leaves (same leaves => same root is "
+                     "functionality; same root => same leaves is C11_range_root_faithful / collision resistance) — the real roots are "
+                     "compared through the equality pattern over each history and through the replay of every proof"],
+    "goals_not_proved": [
+        "the hypotheses hcover / hinside of C11_prover_not_refused are not derived from the import history here (they are C13's "
+        "store invariants: roots a function of the stored blocks, kept roots cover kept blocks); without hinside the refusal is real: "
+        "known finding C11-beacon-inside-stored-range (C11_prover_inside_range_counterexample)",
+        "the HTTP handlers of proof_routes.rs (private module) are not driven: the v2 partition `requested \\ certified` is replicated "
+        "in the harness; the legacy partition runs the real ToCardanoTransactionsProofsMessageAdapter",
+        "proof GENERATION (ckb gen_proof / MKMap::compute_proof) is not modelled: that a produced proof verifies under the map's root is "
+        "checked on every produced proof (K replay through Proofs.verifyV2 / verifyLegacy, S through the real verifier), not proved",
+    ],
 }
